@@ -120,6 +120,7 @@ type Enc struct {
 	nonEsc       map[ssa.Value]bool
 	allocd       []ssa.Value // executed allocation sites (in order)
 	specDecl     map[string]bool
+	sumTerms     []sumTerm // slices whose sum(..) occurs in a specification evaluated so far
 	retVals      []retPoint
 	callOrd      map[string]int
 	curBlock     *ssa.BasicBlock
@@ -604,9 +605,26 @@ func (e *Enc) store(st *State, p *Val, T types.Type, v *Val) {
 		return
 	}
 	for i, a := range acc {
-		e.heapSet(st, a.HK, sStore(e.heapGet(st, a.HK), a.Idx, v.L[i]))
+		before := e.heapGet(st, a.HK)
+		e.heapSet(st, a.HK, sStore(before, a.Idx, v.L[i]))
+		// ground update facts for the sums mentioned in specifications (sum(xs)): one
+		// element of a row changed, every registered view of a row of this heap
+		// component changes by the difference (or not at all)
+		if len(a.Idx) == 2 {
+			for _, t := range e.sumTerms {
+				if t.key != a.HK.Key {
+					continue
+				}
+				after := e.heapGet(st, a.HK)
+				oldRow, newRow := sSel(before, t.ref), sSel(after, t.ref)
+				inRange := sAnd(sEq(t.ref, a.Idx[0]), "(<= "+t.off+" "+a.Idx[1]+")", "(< "+a.Idx[1]+" (+ "+t.off+" "+t.ln+"))")
+				e.assume("(= (ssum " + newRow + " " + t.off + " " + t.ln + ") (ite " + inRange + " (+ (- (ssum " + oldRow + " " + t.off + " " + t.ln + ") (select " + oldRow + " " + a.Idx[1] + ")) " + v.L[i] + ") (ssum " + oldRow + " " + t.off + " " + t.ln + ")))")
+			}
+		}
 	}
 }
+
+type sumTerm struct{ key, ref, off, ln string }
 
 // annotate fills pointer meta-data (Root) from the static type.
 func (e *Enc) annotate(v *Val) *Val {
